@@ -654,6 +654,91 @@ pub fn node_beacon_case(ctx: &Ctx, c: &NodeBeacon) -> Vec<Viol> {
     out
 }
 
+/// One running node polls an unchanged beacon file again and again (every beacon interval): it must follow the
+/// beacon while it is at most 50 h old and stop following it afterwards, although neither the file nor the node changed.
+/// `hours`: clock jumps (suspend / long uptime) between polls, cumulative age of the beacon after each.
+pub fn node_beacon_poll_case(ctx: &Ctx, password: &Option<String>, hours: &[u32]) -> Vec<Viol> {
+    use crate::sim::{base_config, NetSim};
+    use vpncloud::payload::Frame;
+    ctx.eval();
+    let cj = || json!({"kind": "node-beacon-poll", "password": password, "hours": hours});
+    let mut out = vec![];
+    let dir = format!("{}/target/c17-beacons", crate::engine::verif_dir());
+    let _ = std::fs::create_dir_all(&dir);
+    let path = format!("{}/{}-poll-{}.txt", dir, std::process::id(), BEACON_FILE_NO.fetch_add(1, std::sync::atomic::Ordering::Relaxed));
+    let _ = std::fs::remove_file(&path);
+    let t0 = 7000 * 3600 + 1000;
+    let mut sim: NetSim<Frame> = NetSim::new();
+    sim.now = t0;
+    MockTimeSource::set_time(t0);
+    let mut cfg = base_config();
+    cfg.auto_claim = false;
+    cfg.beacon_store = Some(path.clone());
+    cfg.beacon_password = password.clone();
+    cfg.beacon_interval = 100_000_000; // written once
+    let a = sim.add_node(&cfg, false);
+    sim.run(3);
+    let mut cfgb = base_config();
+    cfgb.auto_claim = false;
+    cfgb.beacon_load = Some(path.clone());
+    cfgb.beacon_password = password.clone();
+    cfgb.beacon_interval = 600;
+    let b = sim.add_node(&cfgb, false);
+    sim.run(5);
+    if !sim.is_connected(b, a) {
+        out.push(Viol::new("node-beacon-not-followed", "reader did not connect through a fresh beacon".to_string(), cj()));
+        let _ = std::fs::remove_file(&path);
+        return out;
+    }
+    // the writer goes away for good; the reader forgets it and its re-dials give up
+    sim.nodes[a].dead = true;
+    sim.run(600);
+    let a_addr = sim.addr(a);
+    let mut age_h = 0u32;
+    for h in hours {
+        // let a handshake attempt that an earlier poll started die out (120 retries), so that what is seen afterwards
+        // is caused by the polls of this step
+        for _ in 0..400 {
+            if !sim.nodes[b].node.verif_pending().contains(&a_addr) {
+                break;
+            }
+            sim.tick();
+        }
+        if sim.nodes[b].node.verif_pending().contains(&a_addr) {
+            ctx.class("node-beacon-poll:inconclusive(pending-handshake-never-ends)");
+            break;
+        }
+        // time passes (the file is not touched), then the reader polls again
+        sim.now += (*h as i64 - age_h as i64).max(0) * 3600;
+        age_h = (*h).max(age_h);
+        MockTimeSource::set_time(sim.now);
+        let mut dialled = false;
+        for _ in 0..700 {
+            // more than one beacon interval: at least one poll
+            sim.tick();
+            if sim.nodes[b].node.verif_pending().contains(&a_addr) {
+                dialled = true;
+            }
+        }
+        if let Some((i, p, w)) = sim.panics.first() {
+            out.push(Viol::new(format!("node-beacon-{}", p.sig()), format!("node {} panicked: {} ({})", i, p.msg, w), cj()));
+            break;
+        }
+        // age in whole hours of the 16-bit counter, as the format defines it
+        let fresh = age_ok(sim.now / 3600, t0 / 3600, 50) && age_ok((sim.now - 700) / 3600, t0 / 3600, 50);
+        let stale = !age_ok(sim.now / 3600, t0 / 3600, 50) && !age_ok((sim.now - 700) / 3600, t0 / 3600, 50);
+        if fresh && !dialled {
+            out.push(Viol::new("node-beacon-not-followed", format!("the beacon is {} h old (limit 50) but a later poll of the running node no longer follows it", age_h), cj()));
+        } else if stale && dialled {
+            out.push(Viol::new("node-beacon-followed-wrongly", format!("the beacon is {} h old (limit 50) and the running node still dials its addresses", age_h), cj()));
+        }
+        ctx.class(if fresh { "node-beacon-poll:followed-again" } else if stale { "node-beacon-poll:ignored-when-too-old" } else { "node-beacon-poll:at-the-limit(not-judged)" });
+    }
+    ctx.nontrivial(&("node-beacon-poll", password, hours));
+    let _ = std::fs::remove_file(&path);
+    out
+}
+
 pub fn run(ctx: &Ctx) {
     ctx.rule(
         "case = (password, address lists with 0..8 IPv4 + 0..4 IPv6 entries, host text built from pieces \
@@ -817,6 +902,21 @@ pub fn run(ctx: &Ctx) {
     });
     ctx.sample("node-beacon", || serde_json::to_value(&nb[7]).unwrap());
     ctx.subspace("node level: beacon file written by a real node (own addresses, 0..2 advertised) and read by another one x 3 passwords x ages around the 50 h limit in both directions x store hours x embedding; other password", nnb, false);
+    // (8b) a running node polling the same unchanged file over days
+    {
+        let polls: Vec<(Option<String>, Vec<u32>)> = vec![
+            (None, vec![1, 30, 50, 51, 80]),
+            (Some("mysecretkey".to_string()), vec![49, 52]),
+            (Some("mysecretkey".to_string()), vec![10, 20, 60, 65530, 65536 + 10, 65536 + 60]),
+            (None, vec![51, 200]),
+        ];
+        let np = polls.len() as u64;
+        ctx.par_items(&polls, |_, (pw, hours)| {
+            let v = node_beacon_poll_case(ctx, pw, hours);
+            ctx.report(v);
+        });
+        ctx.subspace("node level: one running node polls an unchanged beacon file at ages 1 h .. 65596 h (followed iff at most 50 h old in either direction of the 16-bit hour counter)", np, false);
+    }
     // (9) one long-lived serializer: all step sequences of length <= 4 over {0, 1, 49, 51, 100 h} x 2 lists, and sampled longer ones
     {
         let dhs = [0u32, 1, 49, 51, 100];
@@ -844,7 +944,7 @@ pub fn run(ctx: &Ctx) {
                 let pws = passwords();
                 let mut rng = ctx.rng("hist", (*seed % 64) as usize);
                 let lists = vec![gen_list(&mut rng, 1 + (*seed % 4) as usize, (*seed / 4 % 3) as usize), gen_list(&mut rng, 2, 0), gen_list(&mut rng, 0, 1)];
-                let c = History { password: pws[pick_idx(*pi, pws.len())].clone(), lists, steps: steps.clone(), start_hour: *start as u32 };
+                let c = History { password: pws[pick_idx(*pi, pws.len())].clone(), lists, steps: steps.clone(), start_hour: *start as u32 + 100 }; // the clock never shows a negative time: readers 51 h before production need hour >= 51
                 let v = check_history(ctx, &c);
                 ctx.sample("history", || serde_json::to_value(&c).unwrap());
                 v
@@ -861,7 +961,12 @@ pub fn replay(ctx: &Ctx, case: &Value) {
     if crate::fuzzdrv::replay(ctx, case) {
         return;
     }
-    if case["kind"].as_str() == Some("history") {
+    if case["kind"].as_str() == Some("node-beacon-poll") {
+        let pw = case["password"].as_str().map(|s| s.to_string());
+        let hours: Vec<u32> = case["hours"].as_array().map(|a| a.iter().filter_map(|x| x.as_u64().map(|v| v as u32)).collect()).unwrap_or_default();
+        let v = node_beacon_poll_case(ctx, &pw, &hours);
+        ctx.report(v);
+    } else if case["kind"].as_str() == Some("history") {
         if let Ok(c) = serde_json::from_value::<History>(case["case"].clone()) {
             let v = check_history(ctx, &c);
             ctx.report(v);
